@@ -34,7 +34,7 @@ PROP = {
         {"name": "c01_open", "src": "c01_hash.cpp", "flags": ["-DVF_PART=2"]},
     ],
     "rule": ("random histories (insert, find, remove by key / predicate, reserve, clear with and without shrink, extract + re-insert, copy, move, "
-             "swap, merge; 260 ops quick / 1200 thorough per run) over 28 instantiations = 12 bucket types x item kinds (4/16/40-byte trivially "
+             "swap, merge; 260 ops quick / 1200 thorough per run; 10 runs quick / 36 thorough per instantiation, three times as many for slow-hash traits, whose buckets keep hash bits that are reused on growth) over 28 instantiations = 12 bucket types x item kinds (4/16/40-byte trivially "
              "relocatable, nothrow-move, copy-only) x set/map x fast/slow hash, hash family drawn from {constant, low 4 bits, high byte, identity, "
              "multiplicative, two clusters}, key ranges 12..600 so that tables cross several growth thresholds; after every op the model must print "
              "the same result, count, capacity, generations and layout checksum; every 16 ops the property-level oracle (std::map) checks every "
